@@ -164,17 +164,20 @@ Definition desugar_stmt (s : stmt) : ptree :=
   match s with StExpr e => desugar e | StAssign x e => PAssign x (desugar e) end.
 Definition desugar_prog (p : prog) : ptree := PStmts (map desugar_stmt p).
 
-(* number of constructors; every strict sub-expression is smaller *)
+(* a size: every strict sub-expression is smaller, and the constructs whose parts are parsed
+   by a nested parse_expression (behind "[" "{" "(" of a call) count 2, so that the size also
+   bounds the nesting depth of parse_expression on the fully parenthesised text *)
 Fixpoint size (s : sst) : nat :=
   match s with
   | SNum _ | SVar _ | SStr _ | SInst _ => 1
   | SParen e | SSign _ e | SFact e | SQty e _ | SConv e _ => S (size e)
-  | SBin _ a b | SRange a b | SInterval a b | SCmp1 _ a b => S (size a + size b)
+  | SBin _ a b | SRange a b | SCmp1 _ a b => S (size a + size b)
+  | SInterval a b => S (S (size a + size b))
   | SCmp2 _ _ a b c => S (size a + size b + size c)
   | SCall _ args kw =>
-      S (fold_right (fun e n => size e + n) 0 args + fold_right (fun p n => size (snd p) + n) 0 kw)%nat
-  | SArr l => S (fold_right (fun e n => size e + n) 0 l)%nat
-  | SCompr body cl => S (size body + fold_right (fun c n => size (snd c) + n) 0 cl)%nat
+      S (S (fold_right (fun e n => size e + n) 0 args + fold_right (fun p n => size (snd p) + n) 0 kw))%nat
+  | SArr l => S (S (fold_right (fun e n => size e + n) 0 l))%nat
+  | SCompr body cl => S (S (size body + fold_right (fun c n => size (snd c) + n) 0 cl))%nat
   end.
 
 (* ------------------------------------------------------------------ text of trees and tokens
